@@ -61,6 +61,16 @@ class _FailingAwaitable:
         yield  # pragma: no cover
 
 
+class UnprintableError(Exception):
+    def __str__(self):
+        raise RuntimeError("this exception cannot be printed")
+
+
+def _empty_multiple_exception():
+    from tartiflette.types.exceptions.tartiflette import MultipleException
+    return MultipleException()
+
+
 class TypeObjRef:
     """stands for the engine's own GraphQLObjectType object of that name (a type resolver may return the type instead of its name)"""
 
@@ -115,12 +125,13 @@ UNIVERSE = [
     ("dict-typeobj-O2", lambda: {"_typename": TypeObjRef("O2"), "x": 1, "z": 5}),
     ("dict-typeobj-O3", lambda: {"_typename": TypeObjRef("O3"), "x": 1}),
     ("dict-typeobj-Query", lambda: {"_typename": TypeObjRef("Query"), "x": 1}),
+    ("exception-unprintable", UnprintableError), ("multipleexception-empty", _empty_multiple_exception),
     ("coroutine-raising", _raising_coro), ("awaitable-failing", _FailingAwaitable),
     ("mappingproxy", lambda: types.MappingProxyType({"_typename": "O", "x": 1, "y": "q"})),
 ]
 TE_LABELS = ["te-bare", "te-path", "te-locations", "te-located", "raise-te-located"]
 CORE = ["None", "1", "'abc'", "1.5", "True", "nan", "2^31", "dict-typename-O", "dict-typename-unknown", "exception",
-        "list", "'RED'", "'nullify'", "pyenum-RED", "decimal-almost-1", "coroutine-raising", "awaitable-failing", "dict-typeobj-O3", "dict-typeobj-O2"]
+        "list", "'RED'", "'nullify'", "pyenum-RED", "decimal-almost-1", "coroutine-raising", "awaitable-failing", "dict-typeobj-O3", "dict-typeobj-O2", "exception-unprintable", "multipleexception-empty"]
 UDICT = dict(UNIVERSE)
 
 
